@@ -481,6 +481,39 @@ func c19Set(r *core.Run) {
 	}
 	r.Check(okExit, "R19.2", "SetCapabilities: only a containing range ends the range loop early", fn.Pos(), "early exits: error returns, or break after SetCapability(cap, true)", whyExit)
 
+	// ... and a containing range DOES end it: once true was recorded no later range of the same capability may be
+	// evaluated (its SetCapability(cap, false) would overwrite the answer, so the last range would decide)
+	okStop, whyStop := true, ""
+	if inner != nil {
+		ih, _ := core.InnermostLoop(cc.Block())
+		for _, c := range setTrue {
+			// is the header of the range loop reachable from the call without leaving the loop?
+			seen := map[*ssa.BasicBlock]bool{}
+			var walk func(b *ssa.BasicBlock) bool
+			walk = func(b *ssa.BasicBlock) bool {
+				if b == ih {
+					return true
+				}
+				if seen[b] || !inner[b] {
+					return false
+				}
+				seen[b] = true
+				for _, s := range b.Succs {
+					if walk(s) {
+						return true
+					}
+				}
+				return false
+			}
+			for _, s := range c.Block().Succs {
+				if walk(s) {
+					okStop, whyStop = false, "after SetCapability(cap, true) the loop over the capability's ranges goes on: a later range that does not contain the version records false over the true, so a version inside one range but outside a later one is reported as not having the capability"
+				}
+			}
+		}
+	}
+	r.Check(okStop, "R19.2", "SetCapabilities: a containing range ends the range loop", fn.Pos(), "no way back to the range loop's head after SetCapability(cap, true)", whyStop)
+
 	// invalid ranges: comparer call on (Introduced, Removed) with error → return; i >= 0 → return error; both before contains
 	fIntro := p.Field("capability", "VersionRange", "Introduced")
 	fRem := p.Field("capability", "VersionRange", "Removed")
